@@ -164,12 +164,16 @@ def judge(flt: Any, flavour: str, badness: np.ndarray, failed: np.ndarray, p: fl
     success = np.flatnonzero(~failed)
     m = success.size
     objectives, constraints = make_inputs(flavour, badness, failed)
+    before = (objectives.tobytes(), None if constraints is None else constraints.tobytes())
     try:
         weights = flt.get_realization_weights(objectives, constraints)
         raised = None
     except Exception as exc:  # noqa: BLE001
         weights = None
         raised = exc
+    if (objectives.tobytes(), None if constraints is None else constraints.tobytes()) != before:
+        # the per-realization values are shared with the other filters of the evaluation and with the results
+        j.fail(f"filter-modified-its-input:{'constraint' if not flavour.startswith('obj') else 'objective'}", flavour=flavour)
     if flavour == "con_two_sided":
         j.trivial = True
         j.outcome = "two-sided:unspecified"
@@ -286,6 +290,60 @@ def e2e_judge(flavour: str, badness: np.ndarray, failed: np.ndarray, p: float, s
     return j
 
 
+def e2e_two_filters(n: int, perm: Any, failed: np.ndarray, p: float, seed: int) -> Judgement:
+    """Two constraints, each ranked by its OWN cvar-constraint filter (upper- and lower-bounded), same evaluation."""
+    from ropt.ensemble_evaluator import EnsembleEvaluator
+
+    j = Judgement()
+    m = int(np.count_nonzero(~failed))
+    if m == 0:
+        j.trivial = True
+        j.outcome = "e2e2-skip"
+        return j
+    table = value_table(n, seed)
+    b0 = table[list(perm)]
+    b1 = table[list(perm)][::-1].copy()
+    cons = np.stack([b0, -b1], axis=1)  # constraint 0: largest is worst; constraint 1 (lower-bounded): smallest is worst
+    objs = (np.arange(n) * 0.25)[:, None]
+
+    def fn(x: np.ndarray, r: int) -> np.ndarray:
+        row = np.concatenate([objs[r], cons[r]])
+        return np.where(failed[r], np.nan, row)
+
+    config = validate({
+        "variables": {"initial_values": [0.0]},
+        "realizations": {"weights": [1.0] * n, "realization_min_success": 0},
+        "nonlinear_constraints": {"lower_bounds": [-np.inf, 0.5], "upper_bounds": [1.0, np.inf], "realization_filters": [0, 1]},
+        "realization_filters": [{"method": "cvar-constraint", "options": {"sort": 0, "percentile": p}},
+                                {"method": "cvar-constraint", "options": {"sort": 1, "percentile": p}}],
+    })
+    manager, _ = make_manager()
+    ens = EnsembleEvaluator(config, None, TableEvaluator(fn, 1, 2), manager)
+    try:
+        (result,) = ens.calculate(np.array([0.0]), compute_functions=True, compute_gradients=False)
+    except Exception as exc:  # noqa: BLE001
+        j.fail("e2e2-unexpected-exception:" + exception_name(exc))
+        return j
+    ref_by_rank = tail_info(p, m)[0]
+    success = np.flatnonzero(~failed)
+    pe = float(Fraction(p))
+    j.outcome = f"e2e2:m={m}"
+    if result.functions is None:
+        j.fail("e2e2-no-functions")
+        return j
+    for k, badness in enumerate((b0, b1)):
+        order = success[np.argsort(-badness[success], kind="stable")]
+        w = np.zeros(n)
+        w[order] = ref_by_rank
+        got_w = result.realizations.constraint_weights
+        if got_w is None or not np.allclose(np.asarray(got_w)[k], w, atol=TOL, rtol=0):
+            j.fail("e2e2-second-filter-weights" if k else "e2e2-first-filter-weights", observed=None if got_w is None else np.asarray(got_w)[k], expected=w)
+        expected = float((w * np.where(failed, 0.0, cons[:, k])).sum() / pe)
+        if not close(result.functions.constraints[k], expected, 1e-9):
+            j.fail("e2e2-tail-mean", constraint=k, observed=result.functions.constraints[k], expected=expected)
+    return j
+
+
 # ------------------------------------------------------------------ enumeration
 
 
@@ -326,6 +384,9 @@ def run_shard(shard: dict[str, Any]) -> core.ShardResult:
                     if p in (0.35, 1.0):
                         j = e2e_judge(flavour, badness, failed, p, spare=True)
                         rec.add(("e2e-spare", flavour, n, mask, perm, p), lambda: case_of("e2e-spare", flavour, n, perm, failed, p, seed), j)
+                    if flavour == "con_upper" and p in (0.35, 0.5, 1.0):
+                        j = e2e_two_filters(n, perm, failed, p, seed)
+                        rec.add(("e2e2", n, mask, perm, p), lambda: case_of("e2e2", "con_upper", n, perm, failed, p, seed), j)
         return rec.finish()
     grid = percentile_grid(n)
     filters = {(flv, p): make_filter(flv, n, p) for flv in shard["flavours"] for p in grid}
@@ -361,6 +422,8 @@ def run_case(case: dict[str, Any]) -> Judgement:
     table = value_table(n, case["seed"])
     badness = table[list(case["perm"])]
     failed = np.array(case["failed"], dtype=bool)
+    if case["kind"] == "e2e2":
+        return e2e_two_filters(n, tuple(case["perm"]), failed, p, case["seed"])
     if case["kind"] in ("e2e", "e2e-spare"):
         return e2e_judge(case["flavour"], badness, failed, p, spare=case["kind"] == "e2e-spare")
     return judge(make_filter(case["flavour"], n, p), case["flavour"], badness, failed, p)
